@@ -395,9 +395,9 @@ Definition rows_ok (exp : list (list cell)) (obs : list (list ocell)) : bool := 
      file  all lines of the file, marker / wanted: what the parser was asked for,
      gen   the texts the writer put into the format's columns, one list per row (the property's oracle),
      obs   rows midgard returned.
-   verdict 0: obs = converted generating texts, and the model of the code (as built) predicts obs as well;
-           2..5: obs differs from the oracle but is what the model predicts with exactly that quirk
-                 (2 q_hash, 3 q_limit81);  9: oracle ok but the model of the code disagrees (model out of date);
+   verdict 0: obs = converted generating texts (the oracle) and = the model without quirks;
+           2 / 3: obs differs from the oracle but is what the model predicts with exactly q_hash / q_limit81 on,
+           4: ... with all quirks on;  9: oracle ok but the quirk-free model disagrees (model out of date);
            1: unexplained *)
 Definition gen_rows (t : table) (gen : list (list string)) : list (list cell) := map (convert_row t) gen.
 
@@ -414,12 +414,12 @@ Definition opt_rows_ok (m : option (list (list cell))) (obs : list (list ocell))
 Definition check_rows (tms : bool) (t : table) (wanted : list string) (marker : string) (file : list string)
            (gen : list (list string)) (obs : list (list ocell)) : Z :=
   let oracle := rows_ok (gen_rows t gen) obs in
-  let built := opt_rows_ok (model_rows as_built tms t wanted marker file) obs in
-  if oracle then (if built then 0 else 9)%Z
-  else if negb built then 1%Z
-  else if opt_rows_ok (model_rows (mkQ true false false false) tms t wanted marker file) obs then 2%Z
-  else if opt_rows_ok (model_rows (mkQ false true false false) tms t wanted marker file) obs then 3%Z
-  else 4%Z.
+  let m q := opt_rows_ok (model_rows q tms t wanted marker file) obs in
+  if oracle then (if m all_off then 0 else 9)%Z
+  else if m (mkQ true false false false) then 2%Z
+  else if m (mkQ false true false false) then 3%Z
+  else if m as_built then 4%Z
+  else 1%Z.
 
 (* matrices: values are exact decimals (texts); observed matrix as rows of doubles *)
 Definition qcell := (bool * Q)%type.
@@ -476,13 +476,19 @@ Definition check_matrix (t : table) (wanted : list string) (marker : string) (fi
            (n : nat) (lower : bool) (gen : list (nat * nat * string)) (obs : list (list dy)) : Z :=
   let oracle := match oracle_matrix lower gen with Some M => matrix_ok n M obs | None => false end in
   let m q := match model_matrix q t wanted marker file with Some (_, M) => matrix_ok n M obs | None => false end in
-  if oracle then (if m as_built then 0 else 9)%Z
-  else if negb (m as_built) then 1%Z
+  if oracle then (if m all_off then 0 else 9)%Z
   else if m (mkQ false false true false) then 5%Z
-  else 4%Z.
+  else if m as_built then 4%Z
+  else 1%Z.
 
 (* regrouping by lower-cased first column: groups as (key, rows) *)
-Definition key_of_row (r : list ocell) : string := match r with OT s :: _ => lower s | _ => "" end.
+Definition key_of_row (k : nat) (r : list ocell) : string := match nth k r ONone with OT s => lower s | _ => "" end.
+Fixpoint remove_nth {A} (k : nat) (l : list A) : list A :=
+  match l, k with
+  | [], _ => []
+  | _ :: r, 0 => r
+  | a :: r, S k' => a :: remove_nth k' r
+  end.
 Definition ocell_eqb (a b : ocell) : bool :=
   match a, b with
   | OT s, OT s' => String.eqb s s'
@@ -496,26 +502,27 @@ Definition ocell_eqb (a b : ocell) : bool :=
   end.
 (* rows: what the plain block parser returned; groups: what the regrouping parser returned for the same block.
    mode 0: lists of full rows (sinex_site lists); 1: only the last row of each station (sinex_site SITE/ID dict);
-   2: lists of rows without the site_code column (sinex_discontinuities / sinex_events) *)
-Definition view_group (mode : nat) (g : string * list (list ocell)) : string * list (list ocell) :=
-  let '(k, rs) := g in
+   2: lists of rows without the site_code column (sinex_discontinuities / sinex_events);
+   k: position of the site_code column *)
+Definition view_group (mode k : nat) (g : string * list (list ocell)) : string * list (list ocell) :=
+  let '(key, rs) := g in
   match mode with
-  | 0 => (k, rs)
-  | 1 => (k, match rev rs with r :: _ => [r] | [] => [] end)
-  | _ => (k, map (@tl ocell) rs)
+  | 0 => (key, rs)
+  | 1 => (key, match rev rs with r :: _ => [r] | [] => [] end)
+  | _ => (key, map (remove_nth k) rs)
   end.
 Definition groups_eqb (a b : list (list ocell)) : bool := all2 (all2 ocell_eqb) a b.
-Definition check_regroup (mode : nat) (rows : list (list ocell)) (groups : list (string * list (list ocell))) : Z :=
-  let model := map (view_group mode) (regroup key_of_row rows) in
+Definition check_regroup (mode k : nat) (rows : list (list ocell)) (groups : list (string * list (list ocell))) : Z :=
+  let model := map (view_group mode k) (regroup (key_of_row k) rows) in
   if Nat.eqb (List.length model) (List.length groups) &&
      forallb (fun '(k, rs) => match lookup k groups with Some rs' => groups_eqb rs rs' | None => false end) model
   then 0%Z else 1%Z.
 
-(* a block of exactly one line: the specification returns its row; as built the iterating parsers raise *)
+(* a block of exactly one line: the specification returns its row (verdict 0, the rows are checked as usual);
+   as built the iterating parsers raise (verdict 6); any other exception is unexplained *)
 Definition check_crash (q : quirks) (rows_per_block : list nat) (crashed : bool) : Z :=
   let predicted := q_scalar q && existsb (Nat.eqb 1) rows_per_block in
-  if negb crashed then (if predicted then 1 else 0)%Z
-  else if predicted then 6%Z else 1%Z.
+  if negb crashed then 0%Z else if predicted then 6%Z else 1%Z.
 
 (* tables by attribute name / marker out of a regenerated block list *)
 Fixpoint get_block (attr : string) (l : list raw_block) : option raw_block :=
